@@ -19,7 +19,7 @@ pub const FLOORS: &[&str] = &[
     "key:char", "key:multibyte2", "key:multibyte4", "key:backspace", "key:delete", "key:left",
     "key:right", "key:ctrl_left", "key:ctrl_right", "key:up", "key:down", "key:enter",
     "ctrl_right_with_multibyte_on_line", "edit_of_history_line", "submitted", "submitted_multi_command",
-    "blank_enter", "history:empty", "history:two_entries", "random_long", "long_history", "long_line",
+    "blank_enter", "history:empty", "history:two_entries", "random_long", "long_history", "long_line", "deep_history_walk",
 ];
 
 #[derive(Clone, Copy, Debug, PartialEq)]
@@ -609,6 +609,17 @@ fn random_case(seed: u64, i: u64, hs: &[Vec<String>]) -> CaseOut {
                     }
                 }
                 out.class("long_history");
+            }
+            2 if !cfg!(miri) => {
+                // submit a line on top of a history of several hundred lines, then walk all the way up
+                let n = *rng.pick(&[255usize, 256, 499, 500, 501, 512, 1000, 1024]);
+                history = (0..n).map(|k| format!("l{}", k)).collect();
+                let ups = n + 1 - rng.below(3) as usize;
+                keys = vec![K::Ch('z'), K::Ch('z'), K::Enter];
+                keys.extend(std::iter::repeat(K::Up).take(ups));
+                keys.push(if rng.bool() { K::Enter } else { K::Ch('!') });
+                keys.push(K::Enter);
+                out.class("deep_history_walk");
             }
             1 => {
                 // one line far longer than the editor's initial buffer (64 bytes), typed and then edited
